@@ -39,7 +39,7 @@ func verifNewStorage(cacheDir string) *Default {
 // keeps serving its previous version, a refreshed list serves its new version, and
 // invalid entries never remove a valid one.
 //
-//verif:harness name=H13b-storage tier=quick,thorough bounds="index of two valid lists plus one entry from {none, duplicate key, invalid key, empty URL, non-HTTP URL, third valid list} sorting first, between or last in the index; two refresh rounds; every list download fails or succeeds independently in each round" reach=done,kept-previous,replaced,invalid-entry maxpaths=50000
+//verif:harness name=H13b-storage tier=quick,thorough bounds="index of two valid lists plus one entry from {none, duplicate key, invalid key, empty URL, non-HTTP URL, third valid list} sorting first, between or last in the index; two refresh rounds; every list download fails or succeeds independently in each round; the second round may be interrupted (context cancelled) during any one list" reach=done,kept-previous,replaced,invalid-entry,interrupted maxpaths=200000
 //verif:assume symbolic build: the index download/JSON decoding (loadIndex) and the per-list download (rulelist.Refreshable.Refresh) are stubs with the chosen outcome; native replay uses a loopback HTTP server; blocked-service and safe-search refresh are not configured
 func VerifC13Storage() {
 	env := verifNewEnv13()
@@ -77,7 +77,24 @@ func VerifC13Storage() {
 			ok[id] = verifChoice(2) == 0
 		}
 		env.setOutcomes(ok)
-		err := s.refresh(context.Background(), false)
+		// the round may be interrupted (its context cancelled) while one list is refreshed
+		ctx, cancel := context.WithCancel(context.Background())
+		cancelAt := ""
+		if round == 1 && verifChoice(2) == 1 {
+			cancelAt = valid[verifChoice(len(valid))]
+		}
+		env.setCancelAt(cancelAt, cancel)
+		err := s.refresh(ctx, false)
+		cancel()
+		if cancelAt != "" {
+			verifAssert("interrupted-round-is-reported", err != nil)
+			verifAssert("interrupted-round-keeps-every-previous-list", len(s.ruleLists) == len(prev))
+			for _, id := range valid {
+				verifAssert("interrupted-round-keeps-every-previous-list", s.ruleLists[filter.ID(id)] == prev[id])
+			}
+			verifReach("interrupted")
+			continue
+		}
 		verifAssert("round-succeeds-despite-list-failures", err == nil)
 		cur := map[string]*rulelist.Refreshable{}
 		for _, id := range valid {
@@ -98,7 +115,12 @@ func VerifC13Storage() {
 			}
 		}
 		verifAssert("no-entries-beyond-the-valid-ones", len(s.ruleLists) <= len(valid))
-		prev = cur
+		prev = map[string]*rulelist.Refreshable{}
+		for id, rl := range cur {
+			if rl != nil {
+				prev[id] = rl
+			}
+		}
 	}
 	verifReach("done")
 }
